@@ -525,6 +525,7 @@ package core
 
 //@ func (*Keys).Caller
 //@   props C03 C02 C01
+//@   returns_alias k.matched itself
 //@   terminates
 //@   requires k != nil
 //@   pure
@@ -532,6 +533,7 @@ package core
 
 //@ func MacroKeys
 //@   props C18 C01
+//@   returns_alias keys.matched itself
 //@   terminates
 //@   requires keys != nil
 //@   pure
@@ -549,6 +551,7 @@ package core
 
 //@ func (*Keys).extractCursorPos
 //@   props C05 C01
+//@   returns_alias cursor is an element of the (fresh) result of regexp.FindAll; remain is the argument itself when there is no report
 //@   terminates
 //@   requires k != nil && rxRcvCursorPos != nil
 //@   pure
